@@ -561,24 +561,15 @@ def run(report, tier: str, seed: int):
                 log.fail(f"define:{t.sig()}:{type(e).__name__}", f"defining {t.sig()} raised {e!r}", {"type": t.sig(), "source": module_source(t)}, observed=repr(e), functions_involved=["alias"])
         for mode, param, action in MODES:
             try:
-                if action == "aliaser":
-                    settings.aliaser = _custom
-                    dyn: Optional[Callable[[str], str]] = _custom
-                elif action == "camel_case":
-                    settings.camel_case = True
-                    dyn = settings.aliaser  # the documented meaning of the switch: the library's camelCase aliaser
-                    if dyn("some_name_x") != "someNameX" or not settings.camel_case:
-                        log.fail("settings.camel_case:not-camel", f"settings.camel_case = True gives aliaser('some_name_x') = {dyn('some_name_x')!r}", {"mode": mode}, functions_involved=["MetaSettings"])
-                else:
-                    dyn = param
-                apischema.cache.reset()
+                dyn = _enter_mode(log, mode, param, action)
                 for t in types:
                     if t.name not in mods:
                         continue
                     why = names_ok(t, dyn)
                     if why is not None:
+                        log.stats["skipped_colliding_names"] = log.stats.get("skipped_colliding_names", 0) + 1
                         continue
-                    Views(log, t, mods[t.name], mode, param, dyn).run_all()
+                    Views(log, t, mods[t.name], mode, param, dyn, tier).run_all()
             finally:
                 settings.aliaser = saved_aliaser
                 apischema.cache.reset()
@@ -594,9 +585,66 @@ def run(report, tier: str, seed: int):
     return log
 
 
+def _enter_mode(log, mode: str, param, action) -> Optional[Callable[[str], str]]:
+    import apischema
+    from apischema import settings
+
+    if action == "aliaser":
+        settings.aliaser = _custom
+        dyn: Optional[Callable[[str], str]] = _custom
+    elif action == "camel_case":
+        settings.camel_case = True
+        dyn = settings.aliaser  # the documented meaning of the switch: the library's camelCase aliaser
+        if dyn("some_name_x") != "someNameX" or not settings.camel_case:
+            log.fail("settings.camel_case:not-camel", f"settings.camel_case = True gives aliaser('some_name_x') = {dyn('some_name_x')!r}", {"mode": mode}, functions_involved=["MetaSettings"])
+    else:
+        dyn = param
+    apischema.cache.reset()
+    return dyn
+
+
+def replay(rp: dict) -> int:
+    """re-run every view of the (type, aliaser mode) of a replay file"""
+    import json
+
+    import apischema
+    from apischema import settings
+    from vf.core import Report
+
+    case = rp.get("case", {})
+    print(json.dumps({k: rp.get(k) for k in ("property", "signature", "summary")}, indent=1))
+    if "spec" not in case:
+        print("no generated type in this replay file: see case")
+        return 1
+    t = eval(case["spec"], {"CT": CT, "CF": CF})  # noqa: S307 -- our own repr
+    report = Report(rp.get("property", "C11"), "thorough", 0, "exploration")
+    log = report.driver("replay", "one (type, mode)")
+    tmp = tempfile.mkdtemp(prefix="c11replay_")
+    modname = f"c11rp_{os.getpid()}_{t.name}"
+    sys.path.insert(0, tmp)
+    saved = settings.aliaser
+    try:
+        with open(os.path.join(tmp, modname + ".py"), "w") as fh:
+            fh.write(module_source(t))
+        importlib.invalidate_caches()
+        mod = importlib.import_module(modname)
+        mode, param, action = next(m for m in MODES if m[0] == case["mode"])
+        dyn = _enter_mode(log, mode, param, action)
+        Views(log, t, mod, mode, param, dyn, "thorough").run_all()
+    finally:
+        settings.aliaser = saved
+        apischema.cache.reset()
+        sys.modules.pop(modname, None)
+        sys.path.remove(tmp)
+        shutil.rmtree(tmp, ignore_errors=True)
+    for v in report.violations:
+        print(("KNOWN-FINDING " if v.known else "STILL FAILING ") + v.summary[:600])
+    return 1 if any(v.known is None for v in report.violations) else 0
+
+
 class Views:
-    def __init__(self, log, t: CT, mod, mode: str, param, dyn):
-        self.log, self.t, self.mod, self.mode, self.param, self.dyn = log, t, mod, mode, param, dyn
+    def __init__(self, log, t: CT, mod, mode: str, param, dyn, tier: str = "quick"):
+        self.log, self.t, self.mod, self.mode, self.param, self.dyn, self.tier = log, t, mod, mode, param, dyn, tier
         self.kw = {"aliaser": param} if param is not None else {}
         self.tp = getattr(mod, t.name)
         if t.generic:
@@ -610,7 +658,7 @@ class Views:
         self.log.fail(
             f"{view}:{self.t.sig()}:{self.mode}:{detail}",
             f"{view}: {self.t.sig()} under aliaser mode {self.mode}: {summary}",
-            {"type": self.t.sig(), "mode": self.mode, "view": view, "input": repr(inp), "source": module_source(self.t)},
+            {"type": self.t.sig(), "mode": self.mode, "view": view, "input": repr(inp), "spec": repr(self.t), "source": module_source(self.t)},
             observed=repr(observed)[:800],
             expected=repr(expected)[:800],
             functions_involved=involved,
@@ -704,7 +752,12 @@ class Views:
         from apischema.json_schema import JsonSchemaVersion, deserialization_schema, serialization_schema
 
         for which, fn in (("deserialization_schema", deserialization_schema), ("serialization_schema", serialization_schema)):
-            for all_refs in (None, True, "draft-07", "draft-2019-09"):
+            variants: List[Any] = [None, True, "draft-07", "draft-2019-09"]
+            if self.tier == "quick":
+                # the default dialect always; $ref-everything when there are nested objects; the
+                # draft-07 spelling (`dependencies`) when there is a dependent_required
+                variants = [None] + ([True] if len(closure(self.t)) > 1 else []) + (["draft-07"] if any(c.dep_required for c in closure(self.t)) else [])
+            for all_refs in variants:
                 kw = dict(self.kw)
                 if all_refs is True:
                     kw["all_refs"] = True
